@@ -223,6 +223,13 @@ func runRace(prop, tier, name string, budget time.Duration) *WorkerResult {
 				x.mu.Lock()
 				fail := x.Fail
 				x.mu.Unlock()
+				if ps := rt.TakeFreePanics(); len(ps) > 0 && fail == "" {
+					first := ps[0]
+					if i := strings.Index(first, "\n"); i > 0 {
+						first = first[:i]
+					}
+					fail = "panic: " + first + "|" + ps[0]
+				}
 				if fail != "" {
 					parts := strings.SplitN(fail, "|", 2)
 					viol = &Violation{Property: prop, Scenario: "race-pass", Clause: "free-running " + sc.Name + ": " + parts[0], Detail: parts[1],
